@@ -119,8 +119,10 @@ deriving DecidableEq, Repr, Inhabited
 def TBook.default : TBook := ⟨0, none, [], []⟩
 
 /-- `OrderBook::new` (`books/mod.rs:29-46`) = `OrderBookSide::bids` / `::asks` (`:148-157`,
-`:176-185`): collect and `sort_unstable_by` price (bids reversed). Nothing else: no
-de-duplication, no removal of zero amounts. (`sortLevels` is the stable sort of `Model/Book.lean`.) -/
+`:176-185`): collect and `sort_by` price (`:154`, `:182`; bids reversed). `slice::sort_by` is
+documented stable, and `sortLevels` (`Model/Book.lean`) is `List.mergeSort`, a stable sort: the
+order among equal-priced levels is the input order in both. Nothing else: no de-duplication, no
+removal of zero amounts. -/
 def TBook.new (sequence : Nat) (timeEngine : Option Int) (bids asks : List Level) : TBook :=
   ⟨sequence, timeEngine, sortLevels .bids bids, sortLevels .asks asks⟩
 
@@ -355,7 +357,13 @@ def countAt (ls : List Level) (p : Rat) : Nat := ls.countP (fun l => l.price == 
 
 /-- Every book a user of the public API can hold. `P` constrains the level lists given to
 `OrderBook::new` for *states* (stand-alone books and `Snapshot` payloads); `Update` payloads are
-never constrained. -/
+never constrained.
+
+Out of scope (no constructor here): `#[derive(Deserialize)]` on `OrderBook` / `OrderBookSide`
+(`books/mod.rs:16`, `:121`). serde fills the `levels` vector as it stands in the document, without
+sorting, so a *deserialised* book can hold its sides in any order and none of the invariants proved
+for `Reachable` books is claimed for it. (The public fields `sequence` / `time_engine` can also be
+assigned directly; they carry no invariant.) -/
 inductive Reachable (P : List Level → Prop) : TBook → Prop where
   | default : Reachable P TBook.default
   | new (seq te bids asks) : P bids → P asks → Reachable P (TBook.new seq te bids asks)
@@ -367,5 +375,68 @@ inductive Reachable (P : List Level → Prop) : TBook → Prop where
 
 /-- the documented well-formed constructor input: pairwise distinct prices, no zero amount -/
 def CleanInput (ls : List Level) : Prop := (ls.map Level.price).Nodup ∧ NonZero ls
+
+/-! ## Additions after the review of the sub-check theorems (`audit/sub/report_A.md`, C05M)
+
+### the `Decimal` division by zero of `volume_weighted_mid_price`, on both sides of the refinement
+
+`Rat` division is total (`x / 0 = 0`), `Decimal` division panics. `TBook.vwMidPanics` (above) is the
+model-side condition. The specification gets its own, written on the price → amount maps: the
+micro-price is *undefined* when both maps have a best entry and the two best amounts cancel. -/
+
+/-- spec side: the volume-weighted mid-price of the map specification is undefined (the divisor
+`best bid amount + best ask amount` is zero). Computed from the abstract maps alone. -/
+def vwMidUndefined (sp : Spec) : Bool :=
+  match PMap.best .bids sp.bids, PMap.best .asks sp.asks with
+  | some b, some a => b.amount + a.amount == 0
+  | _, _ => false
+
+/-- What a caller of `OrderBook::volume_weighed_mid_price` observes: `none` = the call panics
+(`Decimal` division by zero), `some r` = it returns `r`. This is what `drv_c05m model` prints. -/
+def TBook.vwMidChecked (b : TBook) : Option (Option Rat) :=
+  if b.vwMidPanics then none else some b.volumeWeightedMidPrice
+
+/-- the same observation as the specification defines it: `none` = undefined. This is what
+`drv_c05m spec` prints (`vw<cell> panic` for `none`). -/
+def vwMidCheckedSpec (sp : Spec) : Option (Option Rat) :=
+  if vwMidUndefined sp then none else some sp.volumeWeightedMidPrice
+
+/-! ### `OrderBookMap` abstractly: the log of associations
+
+Written from the documentation of `books/map.rs` / `manager.rs` (*"Collection of shared-state
+Instrument OrderBooks"*, `find`: *"Attempt to find the OrderBook associated with the provided Key"*,
+`keys`: *"an Iterator over the OrderBookMap Keys"*, `insert`: *"Insert a new OrderBook into the
+OrderBookMapMulti"*, the multi manager's map: *"Insert OrderBook Entry for each unique Subscription
+(duplicates upserted)"*): a map *is* the list of `(key, cell)` associations in the order in which they were made
+(`OrderBookMapSingle::new(k, c)`: one association; `OrderBookMapMulti::new(pairs)`: the pairs;
+`insert(k, c)`: one more at the end). The association in force for a key is the **last** one made;
+the keys are the keys that have an association. No hash map, no replacement. -/
+
+abbrev AssocLog := List (Nat × Nat)
+
+/-- the cell of the last association made for `key` (a later one wins over an earlier one) -/
+def AssocLog.find : AssocLog → Nat → Option Nat
+  | [], _ => none
+  | (k, c) :: rest, key => (AssocLog.find rest key).or (if k = key then some c else none)
+
+/-- the keys that have an association, each once (order irrelevant: the drivers sort) -/
+def AssocLog.keys : AssocLog → List Nat
+  | [] => []
+  | (k, _) :: rest => if (AssocLog.keys rest).contains k then AssocLog.keys rest else k :: AssocLog.keys rest
+
+/-- the events of the stream that a key resolution `find` sends to cell `c`, in stream order
+(`eventsForCell m` is `eventsForCellBy m.find`) -/
+def eventsForCellBy (find : Nat → Option Nat) (c : Nat) (stream : List TStreamEvent) : List TEvent :=
+  stream.filterMap fun
+    | .reconnecting => none
+    | .item k ev => if find k = some c then some ev else none
+
+/-- `specRun` with the key resolution as a parameter: `drv_c05m spec` runs it with `AssocLog.find`
+of its own log, so that no `BookMap` (no `lookup`, no `hashInsert`) occurs on the spec side. -/
+def specRunBy (find : Nat → Option Nat) (cells : List SCell) (stream : List TStreamEvent) : List SCell :=
+  cells.mapIdx fun c cell => cell.run (eventsForCellBy find c stream)
+
+/-- a concrete map resolves every key as the log does -/
+def MapRefines (m : BookMap) (log : AssocLog) : Prop := ∀ k, m.find k = log.find k
 
 end BarterModel.BookManager
